@@ -191,7 +191,7 @@ SimpleStep ==
 ImplResult ==
     LET op == call.op
     IN CASE op \in ConstructorOps ->
-              [e |-> "Ret", op |-> op, residue |-> <<>>, intact |-> TRUE, st |-> res,
+              [e |-> "Ret", op |-> op, residue |-> <<>>, intact |-> TRUE, outw |-> FALSE, st |-> res,
                h |-> (IF res = StOK THEN FreshHandle ELSE 0),
                blk |-> (IF res = StOK THEN MyBlock ELSE 0),
                langout |-> (IF op = "Decode" /\ res = StOK THEN G(call.a.str.lang).id ELSE "none")]
